@@ -30,7 +30,9 @@ NONASCII = ['4f\u266f', '4\u00a0f#', '\u00bf4E', '4a\x7fL', '4c\u266d', '\u00e9'
 EMPTY = ['']
 # truncated bounding boxes: the recogniser recovers from them in its own way (the tree walk meets missing children)
 BBOX_DAMAGED = ['*xywh-1:10,20,300', '*xywh-1:10,20', '*xywh-1', '*xywh', '*xywh-1:10;20;300;400']
-MALFORMED = UNKNOWN + WRONG_ORDER + TRUNCATED + GARBAGE_APPENDED + BUILDER_RAISES + NONASCII + EMPTY + EMPTY + BBOX_DAMAGED
+# a note, rest or chord with blanks around it (a blank is the chord separator: the grammar then expects another note)
+BLANKS_AROUND = ['4c ', '8.dd#L  ', '2r\u00a0', '4c 4e\x1f', ' 4c', '4c\u2003', '2r ', '16ee-J \u00a0']
+MALFORMED = UNKNOWN + WRONG_ORDER + TRUNCATED + GARBAGE_APPENDED + BUILDER_RAISES + NONASCII + EMPTY + EMPTY + BBOX_DAMAGED + BLANKS_AROUND
 # malformed by construction (an unknown character, a wrong order, a truncation that is no token): a kern spine MUST
 # report these, whatever the recogniser of the tree under test says.  (The others are a valid token followed by
 # garbage, which kernpy accepts and shortens - finding K7 - so for them the recogniser's own verdict is used.)
@@ -38,6 +40,7 @@ MUST_REJECT = {'4zz', 'h', '\u00d64c', '\u00a7', '4c 4zz', '%%', '4&c&&', 'u', '
                '4', '16.', '*cle', '*k[f#', '*M4/', '*met(c', '4%', '8q', '*clef', '4cc#4%',
                '8rJ', '2r[', 'r]', '2r;]', '4r_', '4rL', 'z2r[', '4r/',
                '*xywh-1:10,20,300', '*xywh-1:10,20', '*xywh-1', '*xywh', '*xywh-1:10;20;300;400',
+               '4c ', '8.dd#L  ', '2r\u00a0', '4c 4e\x1f', ' 4c', '4c\u2003', '2r ', '16ee-J \u00a0',
                '4f\u266f', '4\u00a0f#', '\u00bf4E', '4a\x7fL', '4c\u266d', '\u00e9', '\u65e54c', '4c\x01', '\x1b4c'}
 
 
